@@ -249,10 +249,22 @@ func runSingle(c *core.Ctx) {
 	for i := 0; i < nops && !c.Failed(); i++ {
 		c.S.Count("probe:c14-ops")
 		prevFail := s.lastFail
-		switch k := c.S.Plan(16); {
+		k := c.S.Plan(16)
+		// most runs start with a context, a routine and (state variant) a state
+		if c.S.PlanP(800) {
+			switch {
+			case i == 0:
+				k = 7
+			case i == 1:
+				k = 0
+			case i == 2 && s.state:
+				k = 3
+			}
+		}
+		switch {
 		case k < 3: // new routine (or nil)
 			rid, r, sr := s.newRoutine()
-			if c.S.PlanP(120) {
+			if i > 1 && c.S.PlanP(120) {
 				r, sr = nil, nil
 			}
 			myRid = rid
@@ -269,6 +281,9 @@ func runSingle(c *core.Ctx) {
 			}
 		case k < 5 && s.state:
 			st := c.S.Plan(3)
+			if i == 2 && st == 0 {
+				st = 1
+			}
 			c.Descf("op: SetState(%d)", st)
 			before := s.curState
 			predicted := s.cmpNil || st != before
